@@ -3,6 +3,7 @@ package main
 import (
 	"context"
 	"crypto/tls"
+	"crypto/x509"
 	"fmt"
 	"net"
 	"strings"
@@ -203,8 +204,9 @@ func impersonate(ca, other *tlsm.CA, certKind string, maxVer uint16) (connected 
 
 func runC16(r *Result, d *drv.Driver, tier string, seed int64, replay string) {
 	defer c16Sequences(r)
+	defer c16TicketForgery(r)
 	r.Rule = "exhaustive peer matrix against the real crypto/tls: a peer with certificate in {none, valid, self-signed, other CA, expired, wrong host, its own self-signed or foreign-CA leaf followed by a copy of a genuine client leaf / genuine server leaf / the CA certificate, a genuine leaf followed by junk} x max TLS version in {1.0, 1.1, 1.2, 1.3}, plus a plaintext peer, a peer that connects and leaves without sending anything, and one that leaves after the first bytes of a TLS record, " +
-		"attacks a Server (with read/write timeouts 2s, and with none) whose config (weak prior contents) went through DefaultServerTLSConfig - observed: session-auth / request-auth / handler invocations and whether a KMIP response came back; and a TLS server with each certificate x version impersonates towards a Client prepared by DefaultClientTLSConfig - observed: Connect result and application bytes received. Expected outcome = the model's handshake predicate. Plus client sequences: a trusting Client first, then a Client trusting only another CA against the same endpoint (TLS 1.2 and 1.3). distinct = one per matrix cell"
+		"attacks a Server (with read/write timeouts 2s, and with none) whose config (weak prior contents) went through DefaultServerTLSConfig - observed: session-auth / request-auth / handler invocations and whether a KMIP response came back; and a TLS server with each certificate x version impersonates towards a Client prepared by DefaultClientTLSConfig - observed: Connect result and application bytes received. Expected outcome = the model's handshake predicate. Plus client sequences: a trusting Client first, then a Client trusting only another CA against the same endpoint (TLS 1.2 and 1.3); and an outsider presenting a session ticket forged with keys the library itself yields for the server's public chain (ListenAndServe path). distinct = one per matrix cell"
 	r.Exhaustive = true
 	ca, other := tlsm.NewCA("kmip-test-ca"), tlsm.NewCA("foreign-ca")
 	serverCert := tlsm.Leaf(ca, tlsm.LeafOpts{Host: "kmip.test"})
@@ -388,5 +390,137 @@ func c16Sequences(r *Result) {
 		cancel()
 		<-done
 		r.Stats["client-sequence-scenarios"]++
+	}
+}
+
+func freeAddr() string {
+	l, err := net.Listen("tcp", "127.0.0.1:0")
+	if err != nil {
+		return "127.0.0.1:0"
+	}
+	defer l.Close()
+	return l.Addr().String()
+}
+
+// c16TicketForgery: session resumption must not become a way around certificate verification. An outsider who has nothing but
+// the server's PUBLIC certificate chain lets the library itself prepare a tls.Config for that chain (the same
+// Server.ListenAndServe path, with a key of the outsider's own), clones that configuration into a TLS server of its own which
+// trusts the outsider's self-made CA, obtains a session ticket there, and presents the ticket to the real KMIP server. If
+// anything the library does to a configuration makes its ticket keys a function of public data, the real server resumes the
+// forged session - client certificate "already verified" - and serves KMIP. Expected: full handshake, certificate refused.
+func c16TicketForgery(r *Result) {
+	ca, evil := tlsm.NewCA("kmip-ticket-ca"), tlsm.NewCA("outsider-ca")
+	serverCert := tlsm.Leaf(ca, tlsm.LeafOpts{Host: "kmip.test"})
+	evilServer := tlsm.Leaf(evil, tlsm.LeafOpts{Host: "kmip.test"})
+	evilClient := tlsm.Leaf(evil, tlsm.LeafOpts{Host: "client.test", Client: true})
+	for _, v := range []struct {
+		name string
+		max  uint16
+	}{{"1.2", tls.VersionTLS12}, {"1.3", tls.VersionTLS13}} {
+		key := "forged session ticket (keys obtained by running the library's own ListenAndServe on the server's public chain), TLS " + v.name
+		r.eval(key, true)
+		// the real server
+		cfgV := &tls.Config{Certificates: []tls.Certificate{serverCert}, ClientCAs: ca.Pool}
+		kmip.DefaultServerTLSConfig(cfgV)
+		var sa, calls int32
+		victim := &kmip.Server{Addr: freeAddr(), TLSConfig: cfgV, ReadTimeout: 2 * time.Second, WriteTimeout: 2 * time.Second}
+		victim.SessionAuthHandler = func(c net.Conn) (interface{}, error) { atomic.AddInt32(&sa, 1); return nil, nil }
+		victim.Handle(kmip.OPERATION_ACTIVATE, func(ctx *kmip.RequestContext, item *kmip.RequestBatchItem) (interface{}, error) {
+			atomic.AddInt32(&calls, 1)
+			return kmip.ActivateResponse{UniqueIdentifier: "x"}, nil
+		})
+		initV := make(chan struct{})
+		retV := make(chan error, 1)
+		go func() { retV <- victim.ListenAndServe(initV) }()
+		<-initV
+		// the outsider: the library prepares a configuration for the PUBLIC chain (private key: the outsider's own)
+		cfgA := &tls.Config{Certificates: []tls.Certificate{{Certificate: serverCert.Certificate, PrivateKey: evilServer.PrivateKey}}, ClientCAs: evil.Pool}
+		kmip.DefaultServerTLSConfig(cfgA)
+		oracle := &kmip.Server{Addr: freeAddr(), TLSConfig: cfgA}
+		initA := make(chan struct{})
+		retA := make(chan error, 1)
+		go func() { retA <- oracle.ListenAndServe(initA) }()
+		<-initA
+		ctx, cancel := context.WithTimeout(context.Background(), 3*time.Second)
+		_ = oracle.Shutdown(ctx)
+		cancel()
+		select {
+		case <-retA:
+		case <-time.After(3 * time.Second):
+		}
+		// ... and is cloned into the outsider's own TLS server, which trusts the outsider's CA
+		cfgB := cfgA.Clone()
+		cfgB.Certificates = []tls.Certificate{evilServer}
+		cfgB.ClientCAs = evil.Pool
+		cfgB.ClientAuth = tls.RequireAndVerifyClientCert
+		lnB, err := tls.Listen("tcp", "127.0.0.1:0", cfgB)
+		if err != nil {
+			r.find(Finding{Kind: "disagreement", What: "cannot start the outsider's TLS server", Input: key, Actual: err.Error()})
+			continue
+		}
+		go func() {
+			for {
+				c, e := lnB.Accept()
+				if e != nil {
+					return
+				}
+				go func(c net.Conn) {
+					defer c.Close()
+					_ = c.SetDeadline(time.Now().Add(2 * time.Second))
+					if tc, ok := c.(*tls.Conn); ok && tc.Handshake() == nil {
+						_, _ = c.Write([]byte("hello"))
+						buf := make([]byte, 16)
+						_, _ = c.Read(buf)
+					}
+				}(c)
+			}
+		}()
+		pool := x509.NewCertPool()
+		pool.AddCert(ca.Cert)
+		pool.AddCert(evil.Cert)
+		ccfg := &tls.Config{RootCAs: pool, ServerName: "kmip.test", Certificates: []tls.Certificate{evilClient}, ClientSessionCache: tls.NewLRUClientSessionCache(8),
+			MinVersion: tls.VersionTLS12, MaxVersion: v.max}
+		gotTicket := false
+		if c, e := tls.Dial("tcp", lnB.Addr().String(), ccfg); e == nil {
+			buf := make([]byte, 16)
+			_ = c.SetDeadline(time.Now().Add(2 * time.Second))
+			_, _ = c.Read(buf) // TLS 1.3 delivers the ticket with the first application data
+			_, _ = c.Write([]byte("bye"))
+			c.Close()
+			gotTicket = true
+		}
+		lnB.Close()
+		// the attack
+		obs := fmt.Sprintf("ticket-obtained=%v ", gotTicket)
+		served := false
+		if c, e := tls.Dial("tcp", victim.Addr, ccfg); e == nil {
+			_ = c.SetDeadline(time.Now().Add(2 * time.Second))
+			obs += fmt.Sprintf("handshake=ok resumed=%v ", c.ConnectionState().DidResume)
+			req := kmip.Request{Header: kmip.RequestHeader{Version: kmip.ProtocolVersion{Major: 1, Minor: 4}, BatchCount: 1},
+				BatchItems: []kmip.RequestBatchItem{{Operation: kmip.OPERATION_ACTIVATE, RequestPayload: kmip.ActivateRequest{UniqueIdentifier: "a"}}}}
+			if e := kmip.NewEncoder(c).Encode(&req); e == nil {
+				var resp kmip.Response
+				if e := kmip.NewDecoder(c).Decode(&resp); e == nil {
+					served = true
+				}
+			}
+			c.Close()
+		} else {
+			obs += "handshake refused "
+		}
+		time.Sleep(50 * time.Millisecond)
+		obs += fmt.Sprintf("sessionAuth=%d handler=%d response=%v", atomic.LoadInt32(&sa), atomic.LoadInt32(&calls), served)
+		if served || atomic.LoadInt32(&sa) != 0 || atomic.LoadInt32(&calls) != 0 {
+			r.find(Finding{Kind: "violation", What: "KMIP was served to a peer holding no certificate from the server's client CA (resumed from a forged session ticket)", Input: key,
+				Expect: "sessionAuth=0 handler=0 response=false", Actual: obs})
+		}
+		ctx2, cancel2 := context.WithTimeout(context.Background(), 3*time.Second)
+		_ = victim.Shutdown(ctx2)
+		cancel2()
+		select {
+		case <-retV:
+		case <-time.After(3 * time.Second):
+		}
+		r.Stats["ticket-forgery-scenarios"]++
 	}
 }
